@@ -171,7 +171,8 @@ MANIFEST = dict(
           'before anything else, success is recorded only after _main returned normally in the final task, and the '
           'task never propagates. Coordinator first-writer-wins (C17) then gives: result() returns normally only if '
           'the final step returned normally.'
-          ' Retry loops (GetObjectTask._main, process-pool worker, legacy _get_object / _download_range): one request per attempt, attempts bounded by the configured budget, only stream-level errors are retried.'),
+          ' Retry loops (GetObjectTask._main, process-pool worker, legacy _get_object / _download_range): one request per attempt, attempts bounded by the configured budget, only stream-level errors are retried.'
+          " Also: no step's failure is swallowed -- the single-request task bodies, the IO tasks and the callback loops (on_progress, on_queued) return / go on only if nothing they called raised; a submission failure is recorded without override; NonThreadedExecutor.submit (use_threads=False) captures the task's Exception in a done future and lets an interrupt through; legacy IO thread / ranged download return normally only if both threads finished without an exception."),
     note=('Abstract steps (_main, _submit, user callbacks) are assumed to raise any Exception (or KeyboardInterrupt '
           'for user code) or return; executor semantics (A-EXECUTOR) and the absence of asynchronous exceptions in '
           'worker threads are assumed; the cross-thread claim that all tasks have finished when result() unblocks is '
